@@ -44,6 +44,12 @@ def observe_and_judge(rep, progs, optsets, family, tag, rng, variant_share=0.25)
         if rng.random() < variant_share:
             on, o = optsets[0]
             jobs.append({'id': '%s|%s|v1' % (pid, on), 'p': p, 'variant': 1, 'opts': o})
+        if variant_share and rng.random() < variant_share:
+            # adversarial spellings: the program's own names are the first names the generator hands out; stores as alias-less imports
+            on, o = optsets[rng.randrange(len(optsets))]
+            jobs.append({'id': '%s|%s|vAB' % (pid, on), 'p': p, 'variant': 0, 'opts': o, 'names': {'x': 'A', 'y': 'B'}})
+            jobs.append({'id': '%s|%s|vABi' % (pid, on), 'p': p, 'variant': 0, 'opts': o, 'names': {'x': 'A', 'y': 'B'}, 'imports': True})
+            jobs.append({'id': '%s|%s|vi' % (pid, on), 'p': p, 'variant': 0, 'opts': o, 'imports': True})
     obs = local.pmap(scopegen.observe, jobs, chunksize=64)
     rep.evaluations += len(obs)
     skipped = {}
